@@ -798,9 +798,9 @@ package spec
 //@   requires cache != nil
 //@   assigns  ghost(cacheDom, cacheDoc)
 //@   ensures  result == normBase(".root") && result != ""
-//@   ensures  [C10] root-registered @@ root != nil ==> cacheDom[result] && cacheDoc[result] == root
-//@   ensures  [C10] preloaded-root-kept @@ root == nil && old(cacheDom[normBase(".root")]) && old(cacheDoc[normBase(".root")]) != nil ==> cacheDom == old(cacheDom) && cacheDoc == old(cacheDoc)
-//@   ensures  [C10] never-nil-root @@ cacheDom[result] && cacheDoc[result] != nil
+//@   ensures  [C10,C18] root-registered @@ root != nil ==> cacheDom[result] && cacheDoc[result] == root
+//@   ensures  [C10,C18] preloaded-root-kept @@ root == nil && old(cacheDom[normBase(".root")]) && old(cacheDoc[normBase(".root")]) != nil ==> cacheDom == old(cacheDom) && cacheDoc == old(cacheDoc)
+//@   ensures  [C10,C18] never-nil-root @@ cacheDom[result] && cacheDoc[result] != nil
 //@   ensures  [C18] others-kept @@ forall u string :: u != result && old(cacheDom[u]) ==> cacheDom[u] && cacheDoc[u] == old(cacheDoc[u])
 
 //@ func newResolverContext
